@@ -725,6 +725,32 @@ func (p *Path) assumeTruth(dv DV, want bool) bool {
 			return p.assumeTruth(p.Op(v.X, dv), !want)
 		}
 	case *ssa.BinOp:
+		// integer comparisons both of whose sides are known on this path (a constant, or len() of a slice that is
+		// definitely empty here: s[:0], nil, make(T, 0) with no append yet) are decided, not assumed: the path on
+		// which a filter loop appended nothing and yet "len(result) > 0" holds is infeasible (round 7)
+		switch v.Op {
+		case token.EQL, token.NEQ, token.LSS, token.LEQ, token.GTR, token.GEQ:
+			if a, ok := p.knownInt(p.Op(v.X, dv)); ok {
+				if b, ok := p.knownInt(p.Op(v.Y, dv)); ok {
+					var res bool
+					switch v.Op {
+					case token.EQL:
+						res = a == b
+					case token.NEQ:
+						res = a != b
+					case token.LSS:
+						res = a < b
+					case token.LEQ:
+						res = a <= b
+					case token.GTR:
+						res = a > b
+					case token.GEQ:
+						res = a >= b
+					}
+					return res == want
+				}
+			}
+		}
 		if v.Op == token.EQL || v.Op == token.NEQ {
 			eq := want == (v.Op == token.EQL)
 			l, r := p.Resolve(p.Op(v.X, dv)), p.Resolve(p.Op(v.Y, dv))
@@ -782,6 +808,75 @@ func (p *Path) assumeTruth(dv DV, want bool) bool {
 		}
 	}
 	return p.set(p.Key(dv), false, want, dv)
+}
+
+// knownCompare decides an integer comparison both of whose sides are known on this path.
+func (p *Path) knownCompare(v *ssa.BinOp, dv DV) (res, ok bool) {
+	switch v.Op {
+	case token.EQL, token.NEQ, token.LSS, token.LEQ, token.GTR, token.GEQ:
+	default:
+		return false, false
+	}
+	a, ok1 := p.knownInt(p.Op(v.X, dv))
+	b, ok2 := p.knownInt(p.Op(v.Y, dv))
+	if !ok1 || !ok2 {
+		return false, false
+	}
+	switch v.Op {
+	case token.EQL:
+		return a == b, true
+	case token.NEQ:
+		return a != b, true
+	case token.LSS:
+		return a < b, true
+	case token.LEQ:
+		return a <= b, true
+	case token.GTR:
+		return a > b, true
+	}
+	return a >= b, true
+}
+
+// knownInt: the integer value of dv on this path when it is a constant or len() of a definitely empty slice.
+func (p *Path) knownInt(dv DV) (int64, bool) {
+	dv = p.Resolve(dv)
+	switch v := dv.V.(type) {
+	case *ssa.Const:
+		if v.Value != nil && v.Value.Kind() == constant.Int {
+			if n, ok := constant.Int64Val(v.Value); ok {
+				return n, true
+			}
+		}
+	case *ssa.Call:
+		if b, ok := v.Call.Value.(*ssa.Builtin); ok && b.Name() == "len" && len(v.Call.Args) == 1 {
+			x := p.Resolve(p.Op(v.Call.Args[0], dv))
+			if _, isCall := x.V.(*ssa.Call); isCall {
+				if rd, ok := p.InlinedResult(x, 0); ok { // the slice a module helper, inlined on this path, returned
+					x = p.Resolve(rd)
+				}
+			}
+			if _, isSlice := x.V.Type().Underlying().(*types.Slice); !isSlice {
+				return 0, false
+			}
+			switch s := x.V.(type) {
+			case *ssa.Const:
+				if s.IsNil() {
+					return 0, true
+				}
+			case *ssa.Slice:
+				if s.High != nil {
+					if k, ok := s.High.(*ssa.Const); ok && k.Value != nil && constant.Sign(k.Value) == 0 {
+						return 0, true
+					}
+				}
+			case *ssa.MakeSlice:
+				if k, ok := s.Len.(*ssa.Const); ok && k.Value != nil && constant.Sign(k.Value) == 0 {
+					return 0, true
+				}
+			}
+		}
+	}
+	return 0, false
 }
 
 func splitEq(k string) (string, string, bool) {
@@ -880,6 +975,9 @@ func (p *Path) Truth(dv DV, at int) (val, known bool) {
 			return !b, k
 		}
 	case *ssa.BinOp:
+		if res, ok := p.knownCompare(v, dv); ok {
+			return res, true
+		}
 		if v.Op == token.EQL || v.Op == token.NEQ {
 			l, r := p.Resolve(p.Op(v.X, dv)), p.Resolve(p.Op(v.Y, dv))
 			ln, rn := isNilConst(p, l), isNilConst(p, r)
